@@ -111,3 +111,18 @@ func zzPredefinedParrots() []zzParrot {
 	}
 	return out
 }
+
+// zzChooseParrotSample: every predefined parrot in the thorough tier, every
+// fifth one (a fixed, stated subset) in the quick tier — for harnesses whose
+// per-parrot exploration is expensive.
+func zzChooseParrotSample() zzParrot {
+	ps := zzPredefinedParrots()
+	if verifThorough() {
+		return ps[verifChoice("parrot", len(ps))]
+	}
+	var sub []zzParrot
+	for i := 0; i < len(ps); i += 5 {
+		sub = append(sub, ps[i])
+	}
+	return sub[verifChoice("parrot", len(sub))]
+}
